@@ -84,7 +84,8 @@ def dpm(ipeak, momsin, momcos):
         return np.nan
     else:
         dpm = np.arctan2(momsin[ipeak], momcos[ipeak])
-        return np.float32((270 - R2D * dpm) % 360.0)
+        # Values just below 360 round up to 360 in single precision, wrap them to 0
+        return np.float32((270 - R2D * dpm) % 360.0) % np.float32(360.0)
 
 
 def dp(ipeak, dir):
